@@ -30,6 +30,24 @@ def hosts_for(names):
     return hs
 
 
+def xprobes_for(names, rng=None, limit=12):
+    """cross probes (Host header, SNI of the TLS connection the request arrives on): same name, another
+    cluster's name / alias, unknown, empty, upper-case"""
+    names = [n for n in names if n]
+    out = []
+    for j, h in enumerate(names[:4]):
+        others = [n for n in names if n.lower() != h.lower()]
+        snis = [h, h.upper(), b"", b"nosuch"] + others[:3]
+        for sni in snis:
+            out.append((h + (b":6443" if j % 2 else b""), sni))
+    out.append((b"nosuch", names[0]))
+    out.append((b"NOSUCH:443", names[-1].upper()))
+    if rng is not None and len(out) > limit:
+        keep = out[-2:]
+        out = rng.sample(out[:-2], limit - 2) + keep
+    return out[:max(limit, 2)] if rng is None else out
+
+
 def gen_schema(rng, name):
     k = rng.below(3)
     s = {"name": B(name), "kind": k, "a": 0, "b": 0, "strat": rng.choice([0, 0, 1, 2, 3]), "global": 0}
@@ -207,6 +225,7 @@ def gen_history(rng, n_ops=None, p_force=0, p_invalid=0, p_retry=0, p_gap=0):
     for a in aliases:
         if a not in names:
             names.append(a)
-    return {"hosts": [B(h) for h in hosts_for(names)], "ops": ops, "clusters": [B(c) for c in clusters],
+    return {"hosts": [B(h) for h in hosts_for(names)], "xp": [[B(h), B(x)] for h, x in xprobes_for(names, rng)],
+            "ops": ops, "clusters": [B(c) for c in clusters],
             "schemas": [B(s) for s in SCHEMAS] + [B(b""), B(b"nosuch")],
             "fresh": [rng.below(4) for _ in range(3)], "views": True}
